@@ -1,31 +1,40 @@
 """C33 - DRAW moves the pen exactly as its commands specify.
 
-Cases are structured: concrete-syntax tokens (the printer grammar of theories/model/Draw.v `ccmd`) for the DRAW
-strings and for the string variables used by X, plus a malformed stream of raw strings.  The strings are
-rendered by `render` when the case is run, so every shrunk case stays self-consistent.
+Cases are structured: concrete-syntax tokens (the printer grammar of theories/model/Draw.v `ccmd`, plus array
+elements and VARPTR$ references as numbers / X strings) for the DRAW strings and for the string variables used by
+X, plus a malformed stream of raw strings.  The strings are rendered when the case is run (VARPTR$ bytes are only
+known then), so every shrunk case stays self-consistent.  A second kind of case checks the model of the double
+operations of the quarter turns against the host's doubles.
 
 implementation adapter: a real Session (video=vga) in SCREEN 1/2/7/8/9 (or 0), `DRAW Z9$` statements with
-Graphics._draw_line wrapped to record its calls; after every statement: error number, _draw_current,
-_last_point, scale, angle, colour, POINT(0), POINT(1), recorded calls.
-model: draw_strings (parse + draw) from the Graphics state observed before each group of DRAW statements.
-oracle (no Coq): a reference interpreter of the *tokens* (not of the text) gives the expected pen, segments,
-scale, colour and error; POINT(0)/POINT(1) must be the pen; the pixel buffer must equal that of a second
-Session in which every expected segment is drawn with a LINE statement.
+Graphics._draw_line and Graphics._flood_fill wrapped to record their calls; after every statement: error number,
+_draw_current, _last_point, scale, angle, colour, POINT(0), POINT(1), recorded requests.
+model: draw_groups (parse + draw) from the Graphics state observed before each group of DRAW statements; what each
+flood fill found (seed outside the viewport / on the border colour / filled) is an input of the model.
+oracle (no Coq): a reference interpreter of the *tokens* (not of the text; exact rational arithmetic for the
+quarter turns) gives the expected pen, requests, scale, colour, angle and error; POINT(0)/POINT(1) must be the
+pen; the pixel buffer must equal that of a second Session in which every expected request is issued as a LINE or
+PAINT statement.
 """
 import logging
+import math
 import struct
+from fractions import Fraction
 
 from vlib import core
 from harness import common
 
 RESERVED = 'Z9$'          # the variable that carries the DRAW string
+SCRATCH = 'Z8$'
 MODES = {0: (0, 0, 0), 1: (320, 200, 4), 2: (640, 200, 2), 7: (320, 200, 16), 8: (640, 200, 16), 9: (640, 350, 16)}
 UNIT = {'U': (0, -1), 'D': (0, 1), 'L': (-1, 0), 'R': (1, 0), 'E': (1, -1), 'F': (1, 1), 'G': (-1, 1), 'H': (-1, -1)}
-DEPTH = 4
+MAX_DEPTH = 32            # MAX_DRAW_DEPTH of the implementation (the model takes it from gen/Gen_draw.v)
+RIGHT_ANGLES = (0, 90, 180, 270, 360)
+NOPTR = '\x02\x00\x00'
 
 
 class ExcludedByModel(Exception):
-    """Raised inside the implementation where the model's domain ends (rotations that use floats)."""
+    """Raised inside the implementation where the model's domain ends."""
 
 
 class RefError(Exception):
@@ -35,29 +44,42 @@ class RefError(Exception):
 
 
 class RefUnknown(Exception):
-    """The reference interpreter cannot know the meaning (raw text involved)."""
+    """The reference interpreter cannot know the meaning (raw text involved, or outside the property)."""
 
 
 # ---------------------------------------------------------------------------------------------------
 # rendering of concrete tokens (the harness printer)
 
-def r_num(n):
-    if n[0] == 'lit':
+def r_idx(i):
+    return ' ' * i[1] + str(i[2]) + ' ' * i[3]
+
+
+def r_num(n, ptrs):
+    k = n[0]
+    if k == 'lit':
         _, pre, sg, ds = n
         return ' ' * pre + sg + ''.join(str(d) + ' ' * g for d, g in ds)
-    _, pre, sg, b1, name, b2 = n
-    return ' ' * pre + sg + '=' + ' ' * b1 + name + ' ' * b2 + ';'
+    if k == 'var':
+        _, pre, sg, b1, name, b2 = n
+        return ' ' * pre + sg + '=' + ' ' * b1 + name + ' ' * b2 + ';'
+    if k == 'arr':
+        _, pre, sg, b1, name, br, idxs, brc, b2 = n
+        return ' ' * pre + sg + '=' + ' ' * b1 + name + br + ','.join(r_idx(i) for i in idxs) + brc + ' ' * b2 + ';'
+    if k == 'ptr':
+        _, pre, sg, name = n
+        return ' ' * pre + sg + '=' + ptrs.get(name.upper(), NOPTR)
+    raise ValueError('bad number %r' % (n,))
 
 
 def r_letter(pre, low, c):
     return ' ' * pre + (c.lower() if low else c)
 
 
-def r_opt(n, b):
-    return r_num(n) if n is not None else ' ' * b + ';'
+def r_opt(n, b, ptrs):
+    return r_num(n, ptrs) if n is not None else ' ' * b + ';'
 
 
-def render(tokens):
+def render(tokens, ptrs):
     out = []
     for t in tokens:
         k = t[0]
@@ -66,69 +88,128 @@ def render(tokens):
         elif k in ('B', 'N'):
             out.append(r_letter(t[1], t[2], k))
         elif k == 'mv':
-            out.append(r_letter(t[1], t[2], t[3]) + (r_num(t[4]) if t[4] is not None else ''))
+            out.append(r_letter(t[1], t[2], t[3]) + (r_num(t[4], ptrs) if t[4] is not None else ''))
         elif k == 'M':
-            out.append(r_letter(t[1], t[2], 'M') + r_num(t[4]) + ' ' * t[5] + ',' + r_num(t[6]))
+            out.append(r_letter(t[1], t[2], 'M') + r_num(t[4], ptrs) + ' ' * t[5] + ',' + r_num(t[6], ptrs))
+        elif k == 'P':
+            out.append(r_letter(t[1], t[2], 'P') + r_num(t[3], ptrs) + ' ' * t[4] + ',' + r_num(t[5], ptrs))
         elif k == 'S':
-            out.append(r_letter(t[1], t[2], 'S') + r_num(t[3]))
+            out.append(r_letter(t[1], t[2], 'S') + r_num(t[3], ptrs))
         elif k in ('C', 'A'):
-            out.append(r_letter(t[1], t[2], k) + r_opt(t[3], t[4]))
+            out.append(r_letter(t[1], t[2], k) + r_opt(t[3], t[4], ptrs))
         elif k == 'TA':
-            out.append(r_letter(t[1], t[2], 'T') + ('a' if t[3] else 'A') + r_opt(t[4], t[5]))
+            out.append(r_letter(t[1], t[2], 'T') + ('a' if t[3] else 'A') + r_opt(t[4], t[5], ptrs))
         elif k == 'X':
             out.append(r_letter(t[1], t[2], 'X') + ' ' * t[3] + t[4] + ' ' * t[5] + ';')
+        elif k == 'Xa':
+            _, pre, low, b1, name, br, idxs, brc, b2 = t
+            out.append(r_letter(pre, low, 'X') + ' ' * b1 + name + br + ','.join(r_idx(i) for i in idxs) + brc
+                       + ' ' * b2 + ';')
+        elif k == 'Xp':
+            out.append(r_letter(t[1], t[2], 'X') + ' ' * t[3] + ptrs.get(t[4].upper(), NOPTR))
         else:
             raise ValueError('bad token %r' % (t,))
     return ''.join(out)
 
 
-def text_of(src):
+def text_of(src, ptrs=None):
     """A DRAW string source is {'c': tokens} or {'raw': text}."""
-    return render(src['c']) if 'c' in src else src['raw']
+    return render(src['c'], ptrs or {}) if 'c' in src else src['raw']
 
 
 # ---------------------------------------------------------------------------------------------------
 # reference interpreter of the tokens (oracle side; independent of the Coq model and of the text)
 
-def var_key(name):
-    return name.upper()
+def keys_of(name):
+    """The names under which a variable can be written: unsuffixed = single precision."""
+    key = name.upper()
+    if key.endswith('!'):
+        return [key, key[:-1]]
+    if key[-1] not in '#!%$':
+        return [key, key + '!']
+    return [key]
 
 
-def var_table(case):
-    """name (upper case, as written incl. sigil) -> ('n', int) | ('s', src); unsuffixed = single."""
-    tab = {}
+def var_tables(case):
+    """scalars: NAME -> ('n', int) | ('s', src); arrays: NAME -> (dims, {idx tuple: ('n', int) | ('s', src)})."""
+    scal, arrs = {}, {}
     for name, kind, val in case['vars']:
-        key = var_key(name)
-        ent = ('s', val) if kind == '$' else ('n', int(val))
-        tab[key] = ent
-        if key.endswith('!'):
-            tab[key[:-1]] = ent
-        elif key[-1] not in '#!%$':
-            tab[key + '!'] = ent
-    return tab
+        if kind == 'a':
+            cells = {}
+            for idx, v in val['cells']:
+                cells[tuple(idx)] = ('s', v) if name.endswith('$') else ('n', int(v))
+            for k in keys_of(name):
+                arrs[k] = (list(val['dims']), cells)
+        else:
+            ent = ('s', val) if kind == '$' else ('n', int(val))
+            for k in keys_of(name):
+                scal[k] = ent
+    return scal, arrs
 
 
 def trunc4(a):
-    """a*1/4 truncated toward zero, integers only."""
+    """a/4 truncated toward zero, integers only."""
     q = abs(a) // 4
     return q if a >= 0 else -q
 
 
+def quarter(x, y, yfac, ang):
+    """The quarter turns of _draw_step in exact rational arithmetic on the double yfac:
+    int(y*yfac) is the correctly rounded product truncated, x//yfac is the exact floor of the quotient."""
+    fy = Fraction(yfac)
+    prod = float(Fraction(y) * fy)          # float(Fraction) rounds correctly
+    a = int(prod)                           # truncation toward zero
+    b = math.floor(Fraction(x) / fy)
+    return (a, -b) if ang == 90 else (-a, b)
+
+
 class Ref(object):
-    def __init__(self, tab, pen, scale, angle, attr, nattr):
-        self.tab = tab
-        self.nattr = nattr
-        self.pen = tuple(pen)
-        self.scale, self.angle, self.attr = scale, angle, attr
-        self.segs = []
+    def __init__(self, tabs, g0, outcomes):
+        self.scal, self.arrs = tabs
+        self.pen = tuple(g0['cur'] if g0['cur'] is not None else g0['last'])
+        self.scale, self.angle, self.attr, self.nattr = g0['scale'], g0['angle'], g0['attr'], g0['nattr']
+        self.yfac = float(g0['aspect'][1]) / float(g0['aspect'][0]) if g0['aspect'][0] else 1.0
+        self.window = g0['window']
+        self.outcomes = list(outcomes)
+        self.reqs = []
+
+    def scalar(self, name):
+        ent = self.scal.get(name.upper())
+        if ent is None:
+            ent = ('s', {'c': []}) if name.endswith('$') else ('n', 0)
+        return ent
+
+    def element(self, name, idxs):
+        vals = []
+        for i in idxs:
+            if i[0] == 'n':
+                vals.append(int(i[2]))
+            else:
+                ent = self.scalar(i[2])
+                if ent[0] != 'n':
+                    raise RefError(13)
+                vals.append(ent[1])
+        dims, cells = self.arrs.get(name.upper(), ([10] * len(vals), {}))
+        if len(vals) != len(dims):
+            raise RefError(9)
+        for v, d in zip(vals, dims):
+            if v < 0:
+                raise RefError(5)
+            if v > d:
+                raise RefError(9)
+        ent = cells.get(tuple(vals))
+        if ent is None:
+            ent = ('s', {'c': []}) if name.endswith('$') else ('n', 0)
+        return ent
 
     def num(self, n):
         if n[0] == 'lit':
             v = int(''.join(str(d) for d, _ in n[3]))
             return -v if n[2] == '-' else v
-        ent = self.tab.get(var_key(n[4]))
-        if ent is None:
-            ent = ('s', {'c': []}) if n[4].endswith('$') else ('n', 0)
+        if n[0] == 'arr':
+            ent = self.element(n[4], n[6])
+        else:
+            ent = self.scalar(n[4] if n[0] == 'var' else n[3])
         if ent[0] != 'n':
             raise RefError(13)
         return -ent[1] if n[2] == '-' else ent[1]
@@ -138,6 +219,9 @@ class Ref(object):
         if not lo <= v <= hi:
             raise RefError(5)
 
+    def clamp(self, n):
+        return 0 if n < 0 else (self.nattr - 1 if n >= self.nattr else n)
+
     def move(self, absolute, vx, vy, plot, back):
         x0, y0 = self.pen
         if absolute:
@@ -146,17 +230,26 @@ class Ref(object):
             dx, dy = trunc4(self.scale * vx), trunc4(self.scale * vy)
             if self.angle == 180:
                 dx, dy = -dx, -dy
+            elif self.angle in (90, 270):
+                dx, dy = quarter(dx, dy, self.yfac, self.angle)
             elif self.angle not in (0, 360):
                 raise RefUnknown()
             x1, y1 = x0 + dx, y0 + dy
         if plot:
-            self.segs.append((x0, y0, x1, y1, self.attr))
+            self.reqs.append((0, x0, y0, x1, y1, self.attr))
         if not back:
             self.pen = (x1, y1)
 
-    def run(self, tokens, depth=0):
-        if depth > DEPTH:
+    def sub(self, ent, depth):
+        if ent[0] != 's':
+            raise RefError(13)
+        if 'c' not in ent[1]:
             raise RefUnknown()
+        if depth >= MAX_DEPTH:
+            raise RefError(7)
+        self.run(ent[1]['c'], depth + 1)
+
+    def run(self, tokens, depth=0):
         plot, back = True, False
         for t in tokens:
             k = t[0]
@@ -179,6 +272,21 @@ class Ref(object):
                 self.check(-9999, 9999, y)
                 self.move(not t[3], x, y, plot, back)
                 plot, back = True, False
+            elif k == 'P':
+                f = self.num(t[3])
+                self.check(0, 9999, f)
+                b = self.num(t[5])
+                self.check(0, 9999, b)
+                if self.window:
+                    raise RefUnknown()
+                if not all(-32768 <= v <= 32767 for v in self.pen):
+                    raise RefError(6)
+                if not self.outcomes:
+                    raise RefUnknown()
+                o = self.outcomes.pop(0)
+                self.reqs.append((1, self.pen[0], self.pen[1], self.clamp(f), self.clamp(b), 0))
+                if o == 2:
+                    self.attr = self.clamp(f)
             elif k == 'S':
                 n = self.num(t[3])
                 self.check(1, 255, n)
@@ -186,8 +294,7 @@ class Ref(object):
             elif k == 'C':
                 n = 0 if t[3] is None else self.num(t[3])
                 self.check(-99999, 99999, n)
-                # brought into the attribute range of the mode, like every other graphics statement
-                self.attr = 0 if n < 0 else (self.nattr - 1 if n >= self.nattr else n)
+                self.attr = self.clamp(n)
             elif k == 'A':
                 n = 0 if t[3] is None else self.num(t[3])
                 self.check(0, 3, n)
@@ -196,15 +303,10 @@ class Ref(object):
                 n = 0 if t[4] is None else self.num(t[4])
                 self.check(-360, 360, n)
                 self.angle = n
-            elif k == 'X':
-                ent = self.tab.get(var_key(t[4]))
-                if ent is None:
-                    ent = ('s', {'c': []}) if t[4].endswith('$') else ('n', 0)
-                if ent[0] != 's':
-                    raise RefError(13)
-                if 'c' not in ent[1]:
-                    raise RefUnknown()
-                self.run(ent[1]['c'], depth + 1)
+            elif k in ('X', 'Xp'):
+                self.sub(self.scalar(t[4]), depth)
+            elif k == 'Xa':
+                self.sub(self.element(t[4], t[6]), depth)
 
 
 # ---------------------------------------------------------------------------------------------------
@@ -217,23 +319,19 @@ def zbytes(s):
     return core.zl([ord(ch) for ch in s])
 
 
-def coq_pt(p):
-    return '(%s, %s)' % (zint(p[0]), zint(p[1]))
-
-
 def zint(v):
     return '(%d)' % v if v < 0 else '%d' % v
 
 
-def coq_gstate(g):
+def coq_pt(p):
+    return '(%s, %s)' % (zint(p[0]), zint(p[1]))
+
+
+def coq_gstate(g, outcomes):
     cur = 'None' if g['cur'] is None else '(Some %s)' % coq_pt(g['cur'])
-    return '(mkG %s %s %s %s %s %s %s %s)' % (cur, coq_pt(g['last']), 'true' if g['window'] else 'false',
-                                             zint(g['scale']), zint(g['angle']), zint(g['attr']),
-                                             'true' if g['text'] else 'false', zint(g['nattr']))
-
-
-def f32(v):
-    return struct.unpack('<f', struct.pack('<f', float(v)))[0]
+    return '(mkG %s %s %s %s %s %s %s %s %s %s)' % (
+        cur, coq_pt(g['last']), 'true' if g['window'] else 'false', zint(g['scale']), zint(g['angle']),
+        zint(g['attr']), 'true' if g['text'] else 'false', zint(g['nattr']), coq_pt(g['aspect']), core.zl(outcomes))
 
 
 class C33(core.Check):
@@ -241,22 +339,30 @@ class C33(core.Check):
     GEN = ['gen_draw']
     PROPS = 'props/C33.v'
     MODEL_IMPORTS = ['gen.Gen_draw', 'model.Draw', 'model.DrawStr']
-    QUICK_CASES = 500
+    QUICK_CASES = 400
     THOROUGH_CASES = 5000
     TRUSTED = ['hand model model/Draw.v of Graphics.draw_/_draw/_draw_step and of the MLParser/CodeStream reader '
-               '(its direction table, scale*d quot 4 step, rotation tests, range limits, error numbers and '
-               'character classes are regenerated by gen_draw on every run), tied by correspondence on real '
+               '(its direction table, scale*d quot 4 step, rotation tests, range limits, colour clamps, X nesting '
+               'limit, error numbers and character classes are regenerated by gen_draw on every run; the 90/270 '
+               'degree branches and the yfac computation are pinned textually), tied by correspondence on real '
                'Sessions; translator idiom int(math.trunc(E / 4.)) -> Z.quot E 4 (exact for |E| < 2^53, proved '
-               'for the admitted ranges); "same line as LINE": DRAW and LINE call the same Graphics._draw_line '
-               '(a segment of the model is the argument tuple of that call), checked on pixels by the oracle',
-               'POINT(0)/POINT(1) wrap the pen coordinate in a Single: compared exactly for |v| <= 2^24']
-    PARTIAL = ('angles 90/270 and TA other than 0/180/360 (floating point; excluded by the property), P (paint), '
-               'VARPTR$ references and array elements as GML variables are outside the model')
-    RULE = ('structured DRAW strings (moves with/without counts, S, C, B/N, absolute/relative M, A/TA 0/180/360, '
-            'X substrings up to depth 3, =var; references, blanks, lower case, signs, leading zeros, spaced '
-            'digits, omitted counts, range errors) and a malformed stream (character-level mutations), in '
-            'SCREEN 0/1/2/7/8/9 with PSET/LINE/WINDOW/VIEW pre-statements; several DRAW statements per case; '
-            'non-trivial = at least one move executed without error; distinct by hash of (case, output)')
+               'for the admitted ranges); integer model of the double operations of the quarter turns '
+               '(fdiv, mul_trunc, floor_div) tied by correspondence with the host doubles; "same line as LINE": '
+               'DRAW and LINE call the same Graphics._draw_line (a segment of the model is the argument tuple of '
+               'that call), checked on pixels by the oracle',
+               'POINT(0)/POINT(1) wrap the pen coordinate in a Single: compared exactly for |v| <= 2^24',
+               'what a flood fill of P finds at its seed (outside the viewport / border colour / fills) is an '
+               'input of the model']
+    PARTIAL = ('TA angles other than 0/90/180/270/360 (sin/cos in floating point; excluded by the property), P while a '
+               'WINDOW is active and array elements indexed by array elements are outside the model; the pen '
+               'theorems are for strings without P (P has its own request theorem); array elements and VARPTR$ '
+               'references are in the model and the correspondence but not in the printer-reader theorem')
+    RULE = ('structured DRAW strings (moves with/without counts, S, C, B/N, absolute/relative M, A 0-3, TA multiples '
+            'of 90, P, X substrings incl. self-recursive ones, =var; / =array(i,j); / VARPTR$ references, blanks, lower '
+            'case, signs, leading zeros, spaced digits, omitted counts, range errors) and a malformed stream '
+            '(character-level mutations), in SCREEN 0/1/2/7/8/9 with PSET/LINE/VIEW/WINDOW pre-statements; several '
+            'DRAW statements per case; plus direct cases for the double operations; non-trivial = at least one move '
+            'executed without error; distinct by hash of (case, output)')
     histogram = None
 
     # ---------------------------------------------------------------------------------------------
@@ -265,8 +371,13 @@ class C33(core.Check):
     def corpus(self):
         L = lambda v, pre=0: ['lit', pre, '-' if v < 0 else '', [[int(ch), 0] for ch in str(abs(v))]]
         mv = lambda d, v=None, low=False: ['mv', 0, low, d, None if v is None else L(v)]
-        raw = lambda *ss: {'mode': 1, 'vars': [['A%', '%', 7], ['B', '!', 4], ['C$', '$', {'raw': 'U1'}]],
-                           'groups': [{'pre': [], 'draws': [{'raw': s} for s in ss]}]}
+        std = [['A%', '%', 7], ['B', '!', 4], ['C$', '$', {'raw': 'U1'}]]
+        raw = lambda *ss: {'mode': 1, 'vars': std, 'groups': [{'pre': [], 'draws': [{'raw': s} for s in ss]}]}
+        in_mode = lambda m, *ss: {'mode': m, 'vars': [], 'groups': [{'pre': [], 'draws': [{'raw': s} for s in ss]}]}
+        arr = [['AR%', 'a', {'dims': [5], 'cells': [[[2], 7]]}], ['I%', '%', 2], ['B$', '$', {'raw': 'x'}],
+               ['SA$', 'a', {'dims': [3], 'cells': [[[1], {'raw': 'U3 R2'}]]}], ['S$', '$', {'raw': 'U3'}]]
+        with_arr = lambda *ss: {'mode': 9, 'vars': arr, 'groups': [{'pre': [], 'draws': [{'raw': s} for s in ss]}]}
+        ptr = lambda name: ['ptr', 0, '', name]
         return [
             raw('U5'), raw('U- 5'), raw('U 1 0 '), raw('S255 R99999 R99999 R99999'),
             raw('R=A%; D=B; XC$;'), raw('R=Z'), raw('R=C$;'), raw('XA%;'), raw('X'), raw('U='), raw('U=;'),
@@ -278,13 +389,39 @@ class C33(core.Check):
             raw('C3 S4 BM10,10 R5 D5 L5 U5'), raw('Q'), raw('U5 ?'),
             # D33a: colours outside the attributes of the mode (were: ValueError / invalid pixel value)
             raw('C256 U5'), raw('C-1 U5'), raw('C4 U5'), raw('C99999 R3', 'D2'), raw('C=A%; F3'),
+            # quarter turns in every aspect ratio (1.2, 2.4, 48/35)
+            in_mode(1, 'A1 R10 U10 F7', 'A3 R10 U10 H35', 'TA90 M+35,-48', 'TA270 NM-7,5 A0'),
+            in_mode(2, 'A1 R10 U10 F7 S255 E99999', 'TA270 L35 D5 G12'),
+            in_mode(9, 'A1 R35 U48 F7 R5 U6', 'A3 R35 U48 H35 S63 NE4321', 'TA-90 F7', 'TA45 U1'),
+            in_mode(7, 'TA90', 'U5 TA0 U5'),
+            # P: flood fill requests
+            in_mode(1, 'C3 BM10,10 R20 D20 L20 U20 BF5 P2,3 U2', 'P1,3', 'BM9000,10 P1,2 U1', 'P10000,1', 'P1;2',
+                    'P1', 'BNP1,2 U5'),
+            in_mode(9, 'BM+9999,0 BM+9999,0 BM+9999,0 BM+9999,0 P1,2', 'P 1 , 2R3'),
+            {'mode': 7, 'vars': [], 'groups': [{'pre': ['WINDOW (0,0)-(100,100)'], 'draws': [{'raw': 'U5 P1,2 U5'}]}]},
+            # D33b: a string that executes itself (was: RecursionError)
+            {'mode': 1, 'vars': [['A$', '$', {'raw': 'U2XA$;R9'}]], 'groups': [{'pre': [], 'draws': [{'raw': 'XA$;'}, {'raw': 'D3'}]}]},
+            {'mode': 1, 'vars': [['A$', '$', {'raw': 'R1 XB$;'}], ['B$', '$', {'raw': 'D1 xa$;'}]],
+             'groups': [{'pre': [], 'draws': [{'raw': 'C2 XB$;U50'}]}]},
+            # arrays and VARPTR$ (D33c: string as index was AttributeError; D33d: unknown type byte was KeyError)
+            with_arr('R=AR%(2);', 'R=AR%( 2 ) ;', 'R=AR%[2];', 'R=AR%(6);', 'R=AR%(B$);', 'R=AR%(1,1);', 'R=Q(3);',
+                     'R=Q(11);', 'R=AR%(2;', 'R=AR%(2', 'R=AR%(2,', 'R=AR%(,', 'R=AR%(I%);',
+                     'XSA$(1);', 'XSA$(2);', 'XSA$(4);', 'XAR%(2);', 'D=SA$(1);', 'R=AR%(2]D1'),
+            with_arr('R=\x01\xff\xff', 'R=\x00\xff\xff', 'R=\x05\xff\xffU1', 'R=\x02\xff\xffU1', 'R=\x03\xff\xff',
+                     'X\x03\xff\xffU1', 'X\x02\xff\xff', 'R=\x02a', 'X\x03', 'R=\x08\xff\xffD2', 'X\x07\xff\xff'),
+            {'mode': 9, 'vars': arr, 'groups': [{'pre': [], 'draws': [
+                {'c': [['mv', 0, False, 'R', ptr('I%')], ['semi', 0], ['mv', 0, False, 'D', ['ptr', 1, '-', 'I%']],
+                       ['Xp', 0, False, 1, 'S$'], mv('L', 1), ['M', 0, False, True, ['ptr', 0, '+', 'I%'], 0, ptr('B$')]]}]}]},
             {'mode': 0, 'vars': [], 'groups': [{'pre': [], 'draws': [{'raw': 'U5'}]}]},
             {'mode': 9, 'vars': [], 'groups': [{'pre': ['WINDOW (0,0)-(100,100)'], 'draws': [{'raw': 'U5 R7'}]},
                                                {'pre': ['PSET (3,3)'], 'draws': [{'raw': 'D2'}, {'raw': 'NR4'}]}]},
-            {'mode': 7, 'vars': [], 'groups': [{'pre': ['VIEW (10,10)-(100,100)'], 'draws': [{'raw': 'BM0,0 F20'}]}]},
+            {'mode': 7, 'vars': [], 'groups': [{'pre': ['VIEW (10,10)-(100,100)'], 'draws': [{'raw': 'BM0,0 F20 BH3 P1,15'}]}]},
             {'mode': 1, 'vars': [['S$', '$', {'c': [mv('U', 3), ['B', 0, False]]}]],
              'groups': [{'pre': [], 'draws': [{'c': [['N', 0, False], ['X', 0, False, 0, 'S$', 0], mv('R', 4)]}]}]},
             {'mode': 2, 'vars': [], 'groups': [{'pre': [], 'draws': [{'c': [mv('E'), mv('F', 0), mv('G', -3), mv('H', 99999)]}]}]},
+            {'k': 'fl', 'a0': 800, 'a1': 960, 'v': 5}, {'k': 'fl', 'a0': 1400, 'a1': 1920, 'v': 35},
+            {'k': 'fl', 'a0': 1400, 'a1': 1920, 'v': -6374936}, {'k': 'fl', 'a0': 3, 'a1': 1, 'v': 3},
+            {'k': 'fl', 'a0': 1, 'a1': 1, 'v': 0}, {'k': 'fl', 'a0': 4999, 'a1': 1, 'v': 1099511627775},
         ]
 
     # number layouts
@@ -305,38 +442,59 @@ class C33(core.Check):
     def g_low(self):
         return self.rng.random() < 0.2
 
-    def g_num(self, v, nums, force_sign=False, no_sign=False):
-        """Write v: sometimes through a numeric variable that holds v or -v.
+    def g_idx(self, v, ctx):
+        """An index written as a literal or through a scalar holding v."""
+        rng = self.rng
+        same = [n for n, val in ctx['nums'] if val == v]
+        if same and rng.random() < 0.4:
+            return ['v', self.g_blank(), self.g_case(rng.choice(same)), self.g_blank()]
+        return ['n', self.g_blank(), '%s%d' % ('0' if rng.random() < 0.1 else '', v), self.g_blank()]
+
+    def g_ref(self, sg, refs, ctx):
+        """One of the ways to refer to a numeric variable/element: ('s', name) | ('a', name, idx)."""
+        rng = self.rng
+        ref = rng.choice(refs)
+        if ref[0] == 'a':
+            br = rng.choice(['(', '('])
+            brc = ')' if rng.random() < 0.8 else ']'
+            if rng.random() < 0.2:
+                br = '['
+            return ['arr', self.g_blank(), sg, self.g_blank(), self.g_case(ref[1]), br,
+                    [self.g_idx(i, ctx) for i in ref[2]], brc, self.g_blank()]
+        if ref[1].upper() in ctx['ptr_ok'] and rng.random() < 0.3:
+            return ['ptr', self.g_blank(), sg, ref[1]]
+        return ['var', self.g_blank(), sg, self.g_blank(), self.g_case(ref[1]), self.g_blank()]
+
+    def g_num(self, v, ctx, force_sign=False, no_sign=False):
+        """Write v: sometimes through a variable / array element / VARPTR$ reference that holds v or -v.
         force_sign: a sign must be written (x of a relative M); no_sign: none may be (x of an absolute M)."""
         rng = self.rng
-        same = [n for n, val in nums if val == v]
-        neg = [n for n, val in nums if val == -v and v != 0]
-
-        def var(sg, name):
-            return ['var', self.g_blank(), sg, self.g_blank(), self.g_case(name), self.g_blank()]
+        same = ctx['by_value'].get(v, [])
+        neg = ctx['by_value'].get(-v, []) if v != 0 else []
         if rng.random() < 0.4:
             if same and (not neg or no_sign or rng.random() < 0.7):
-                return var('+' if force_sign else ('' if no_sign else rng.choice(['', '', '+'])), rng.choice(same))
+                return self.g_ref('+' if force_sign else ('' if no_sign else rng.choice(['', '', '+'])), same, ctx)
             if neg and not no_sign:
-                return var('-', rng.choice(neg))
+                return self.g_ref('-', neg, ctx)
         if no_sign and v < 0:
             # an absolute M with negative x can only be written through a variable
-            return var('', rng.choice(same)) if same else None
+            return self.g_ref('', same, ctx) if same else None
         return self.g_lit(v, force_sign, no_sign)
 
     def g_case(self, name):
         return name.lower() if self.rng.random() < 0.25 else name
 
-    COUNT_POOL = [0, 1, 1, 2, 3, 4, 5, 7, 10, 12, 20, 33, 50, 64, 100, 160, 319, 640, 1000, 32767, 32768, 99999,
-                  -1, -2, -5, -10, -50, -99999]
+    COUNT_POOL = [0, 1, 1, 2, 3, 4, 5, 7, 10, 12, 20, 33, 35, 48, 50, 64, 100, 160, 319, 640, 1000, 32767, 32768, 99999,
+                  -1, -2, -5, -10, -35, -50, -99999]
     SCALE_POOL = [1, 2, 3, 4, 4, 5, 6, 7, 8, 9, 12, 16, 25, 100, 127, 128, 254, 255]
-    COORD_POOL = [0, 1, 2, 5, 10, 50, 100, 159, 160, 199, 200, 319, 320, 349, 350, 639, 640, 1000, 9999,
-                  -1, -2, -10, -100, -9999]
+    COORD_POOL = [0, 1, 2, 5, 10, 35, 48, 50, 100, 159, 160, 199, 200, 319, 320, 349, 350, 639, 640, 1000, 9999,
+                  -1, -2, -10, -35, -100, -9999]
 
-    def g_tokens(self, nums, strs, mode, n, allow_err, hist):
-        """n concrete tokens; nums = [(name, value)], strs = names of string variables usable by X."""
+    def g_tokens(self, ctx, strs, mode, n, allow_err, hist):
+        """n concrete tokens; strs = ways to refer to string variables usable by X."""
         rng = self.rng
         nattr = MODES[mode][2] or 16
+        nums = ctx['nums']
         toks = []
         for _ in range(n):
             r = rng.random()
@@ -344,16 +502,16 @@ class C33(core.Check):
             err = allow_err and rng.random() < 0.02
             if r < 0.05:
                 toks.append(['semi', pre]); hist['semi'] += 1
-            elif r < 0.13:
+            elif r < 0.12:
                 toks.append(['B', pre, low]); hist['B'] += 1
-            elif r < 0.2:
+            elif r < 0.18:
                 toks.append(['N', pre, low]); hist['N'] += 1
-            elif r < 0.58:
+            elif r < 0.54:
                 d = rng.choice('UDLREFGH')
                 if err:
                     v = rng.choice([100000, -100000, 123456, 1000000])
-                elif nums and rng.random() < 0.2:
-                    v = rng.choice(nums)[1]
+                elif nums and rng.random() < 0.25:
+                    v = rng.choice(list(ctx['by_value']))
                     if abs(v) > 99999:
                         v = 3
                 elif rng.random() < 0.6:
@@ -363,9 +521,9 @@ class C33(core.Check):
                 if v == 1 and rng.random() < 0.6:
                     toks.append(['mv', pre, low, d, None])
                 else:
-                    toks.append(['mv', pre, low, d, self.g_num(v, nums)])
+                    toks.append(['mv', pre, low, d, self.g_num(v, ctx)])
                 hist['move'] += 1
-            elif r < 0.72:
+            elif r < 0.67:
                 rel = rng.random() < 0.55
                 pick = lambda: rng.choice(self.COORD_POOL) if rng.random() < 0.5 else rng.randrange(-40, 360)
                 x, y = pick(), pick()
@@ -374,17 +532,17 @@ class C33(core.Check):
                         x = rng.choice([10000, -10000, 99999])
                     else:
                         y = rng.choice([10000, -10000, 99999])
-                nx = self.g_num(x, nums, force_sign=True) if rel else self.g_num(x, nums, no_sign=True)
+                nx = self.g_num(x, ctx, force_sign=True) if rel else self.g_num(x, ctx, no_sign=True)
                 if nx is None:
                     x = -x
-                    nx = self.g_num(x, nums, no_sign=True)
-                toks.append(['M', pre, low, rel, nx, self.g_blank(), self.g_num(y, nums)])
+                    nx = self.g_num(x, ctx, no_sign=True)
+                toks.append(['M', pre, low, rel, nx, self.g_blank(), self.g_num(y, ctx)])
                 hist['Mrel' if rel else 'Mabs'] += 1
-            elif r < 0.8:
+            elif r < 0.74:
                 v = rng.choice([0, 256, 1000, -1]) if err else \
                     (rng.choice(self.SCALE_POOL) if rng.random() < 0.7 else rng.randrange(1, 256))
-                toks.append(['S', pre, low, self.g_num(v, nums)]); hist['S'] += 1
-            elif r < 0.88:
+                toks.append(['S', pre, low, self.g_num(v, ctx)]); hist['S'] += 1
+            elif r < 0.81:
                 if err:
                     v = rng.choice([100000, -100000])
                 elif rng.random() < 0.7:
@@ -396,25 +554,36 @@ class C33(core.Check):
                 if v == 0 and rng.random() < 0.5:
                     toks.append(['C', pre, low, None, self.g_blank()])
                 else:
-                    toks.append(['C', pre, low, self.g_num(v, nums), 0])
+                    toks.append(['C', pre, low, self.g_num(v, ctx), 0])
                 hist['C'] += 1
-            elif r < 0.92:
+            elif r < 0.89:
                 if rng.random() < 0.5:
-                    v = rng.choice([4, -1, 7]) if err else rng.choice([0, 0, 2])
-                    tok = ['A', pre, low, None if (v == 0 and rng.random() < 0.4) else self.g_num(v, nums), self.g_blank()]
+                    v = rng.choice([4, -1, 7]) if err else rng.choice([0, 1, 2, 3])
+                    tok = ['A', pre, low, None if (v == 0 and rng.random() < 0.4) else self.g_num(v, ctx), self.g_blank()]
                 else:
-                    v = rng.choice([361, -361, 1000]) if err else rng.choice([0, 0, 180, 360])
-                    tok = ['TA', pre, low, self.g_low(), None if (v == 0 and rng.random() < 0.4) else self.g_num(v, nums),
+                    v = rng.choice([361, -361, 1000]) if err else rng.choice([0, 90, 180, 270, 360])
+                    tok = ['TA', pre, low, self.g_low(), None if (v == 0 and rng.random() < 0.4) else self.g_num(v, ctx),
                            self.g_blank()]
                 toks.append(tok); hist['angle'] += 1
+            elif r < 0.915:
+                f = rng.choice([10000, -1]) if err else rng.choice([0, 1, 2, 3, nattr - 1, nattr, 15, 16, 255, 9999])
+                b = rng.choice([0, 1, 2, 3, nattr - 1, nattr, 15, 9999])
+                toks.append(['P', pre, low, self.g_num(f, ctx), self.g_blank(), self.g_num(b, ctx)]); hist['P'] += 1
             elif strs:
-                toks.append(['X', pre, low, self.g_blank(), self.g_case(rng.choice(strs)), self.g_blank()])
+                ref = rng.choice(strs)
+                if ref[0] == 'a':
+                    toks.append(['Xa', pre, low, self.g_blank(), self.g_case(ref[1]), '(',
+                                 [self.g_idx(i, ctx) for i in ref[2]], rng.choice([')', ')', ']']), self.g_blank()])
+                elif ref[1].upper() in ctx['ptr_ok'] and rng.random() < 0.25:
+                    toks.append(['Xp', pre, low, self.g_blank(), ref[1]])
+                else:
+                    toks.append(['X', pre, low, self.g_blank(), self.g_case(ref[1]), self.g_blank()])
                 hist['X'] += 1
             else:
                 toks.append(['mv', pre, low, rng.choice('UDLREFGH'), None]); hist['move'] += 1
         return toks
 
-    RAW_ALPHABET = 'UDLRMBNSCXEFGHudlrmbnsx;;=+-,, 0123456789%$!.AT?'
+    RAW_ALPHABET = 'UDLRMBNSCXEFGHPudlrmbnsxp;;=+-,, 0123456789%$!.AT?'
 
     def g_mutate(self, text):
         rng = self.rng
@@ -453,10 +622,23 @@ class C33(core.Check):
 
     def gen_cases(self, n):
         rng = self.rng
-        hist = dict.fromkeys(['semi', 'B', 'N', 'move', 'Mrel', 'Mabs', 'S', 'C', 'angle', 'X', 'raw_strings',
-                              'structured_strings', 'text_mode', 'with_error_token', 'long'], 0)
+        hist = dict.fromkeys(['semi', 'B', 'N', 'move', 'Mrel', 'Mabs', 'S', 'C', 'angle', 'P', 'X', 'raw_strings',
+                              'structured_strings', 'text_mode', 'with_error_token', 'long', 'self_recursive',
+                              'double_ops'], 0)
         out = []
         for i in range(n):
+            if i % 12 == 11:
+                # the double operations of the quarter turns on their own
+                # (aspect numbers and values far beyond what DRAW can produce, but with |v / yfac| < 2^53: above
+                # that Python's float floor division is no longer the exact floor)
+                a0, a1 = rng.choice([(800, 960), (800, 1920), (1400, 1920), (rng.randrange(1, 5000), rng.randrange(1, 5000)),
+                                     (rng.randrange(1, 5000), rng.randrange(1, 5000))])
+                k = rng.choice([1, 5, 7, 35, 48, 175, 1225])
+                v = rng.choice([rng.randrange(-7000000, 7000000), k * rng.randrange(-200000, 200000),
+                                rng.randrange(-50, 50), rng.choice([-1, 1]) * rng.randrange(2 ** 30, 2 ** 40)])
+                out.append({'k': 'fl', 'a0': a0, 'a1': a1, 'v': v})
+                hist['double_ops'] += 1
+                continue
             mode = rng.choice([1, 1, 2, 7, 7, 8, 9, 9]) if rng.random() < 0.98 else 0
             if mode == 0:
                 hist['text_mode'] += 1
@@ -464,25 +646,68 @@ class C33(core.Check):
             nums = []
             for name in rng.sample(['A%', 'B%', 'N%', 'K!', 'Q', 'V#', 'X1', 'LEN.G%'], rng.randrange(0, 5)):
                 if name.endswith('%'):
-                    v = rng.choice([0, 1, 2, 5, 10, 100, 255, 256, 32767, -1, -7, -32768, rng.randrange(-300, 300)])
+                    v = rng.choice([0, 1, 2, 3, 5, 10, 90, 100, 255, 256, 32767, -1, -7, -32768, rng.randrange(-300, 300)])
                 else:
-                    v = rng.choice([0, 1, 3, 4, 8, 180, 360, 9999, 10000, 40000, 99999, 100000, -2, -99999,
+                    v = rng.choice([0, 1, 3, 4, 8, 180, 270, 360, 9999, 10000, 40000, 99999, 100000, -2, -99999,
                                     rng.randrange(-300, 300)])
                 nums.append((name, v))
+            vars_ = [[nm, nm[-1] if nm[-1] in '%!#' else '!', v] for nm, v in nums]
+            by_value = {}
+            for nm, v in nums:
+                by_value.setdefault(v, []).append(('s', nm))
+            # numeric arrays
+            for name, dims in rng.sample([('AR%', [5]), ('M2', [3, 2]), ('QA#', [12])], rng.choice([0, 0, 1, 2])):
+                cells = []
+                for _c in range(rng.randrange(1, 4)):
+                    idx = [rng.randrange(0, d + 1) for d in dims]
+                    v = rng.choice([0, 1, 2, 5, 10, 90, 255, -3, rng.randrange(-200, 200)])
+                    if not any(c[0] == idx for c in cells):
+                        cells.append([idx, v])
+                        by_value.setdefault(v, []).append(('a', name, idx))
+                if rng.random() < 0.5:
+                    idx = [rng.randrange(0, d + 1) for d in dims]
+                    if not any(c[0] == idx for c in cells):
+                        by_value.setdefault(0, []).append(('a', name, idx))
+                vars_.append([name, 'a', {'dims': dims, 'cells': cells}])
+            ptr_ok = set(nm.upper() for nm, _ in nums)
+            ctx = {'nums': nums, 'by_value': by_value, 'ptr_ok': ptr_ok}
             allow_err = rng.random() < 0.3
             if allow_err:
                 hist['with_error_token'] += 1
-            # string variables: W$ (no X), T$ (may use W$), S$ (may use T$, W$)
-            vars_ = [[nm, nm[-1] if nm[-1] in '%!#' else '!', v] for nm, v in nums]
+                if rng.random() < 0.3:
+                    # wrong subscripts
+                    declared = [v[0] for v in vars_ if v[1] == 'a']
+                    if 'AR%' in declared:
+                        by_value.setdefault(0, []).append(('a', 'AR%', [rng.choice([6, 11, 200])]))
+                    if 'M2' in declared:
+                        by_value.setdefault(0, []).append(('a', 'M2', [1]))
+            # string variables: W$ (no X), T$ (may use W$), S$ (may use T$, W$), a string array
             strs = []
             for name in ['W$', 'T$', 'S$']:
                 if rng.random() < 0.45:
-                    toks = self.g_tokens(nums, list(strs), mode, rng.randrange(0, 6), allow_err, hist)
+                    toks = self.g_tokens(ctx, list(strs), mode, rng.randrange(0, 6), allow_err, hist)
                     src = {'c': toks}
                     if rng.random() < 0.1:
-                        src = {'raw': self.g_mutate(render(toks))}
+                        src = {'raw': self.g_mutate(render(toks, {}))} if not any(
+                            t[0] in ('Xp',) or (len(t) > 3 and any(isinstance(x, list) and x and x[0] == 'ptr' for x in t))
+                            for t in toks) else src
                     vars_.append([name, '$', src])
-                    strs.append(name)
+                    strs.append(('s', name))
+                    ptr_ok.add(name)
+            if strs and rng.random() < 0.25:
+                toks = self.g_tokens(ctx, list(strs), mode, rng.randrange(0, 4), allow_err, hist)
+                vars_.append(['SA$', 'a', {'dims': [3], 'cells': [[[2], {'c': toks}]]}])
+                strs.append(('a', 'SA$', [2]))
+                if rng.random() < 0.3:
+                    strs.append(('a', 'SA$', [1]))
+            if strs and rng.random() < 0.04:
+                # a string that executes itself (once): runs into the nesting limit
+                tgt = [v for v in vars_ if v[1] == '$' and 'c' in v[2]]
+                if tgt:
+                    v = rng.choice(tgt)
+                    pos = rng.randrange(0, len(v[2]['c']) + 1)
+                    v[2]['c'].insert(pos, ['X', 0, False, 0, v[0], 0])
+                    hist['self_recursive'] += 1
             groups = []
             for _g in range(rng.choice([1, 1, 1, 2, 3])):
                 draws = []
@@ -494,11 +719,12 @@ class C33(core.Check):
                         k = 0
                     else:
                         k = rng.randrange(1, 13)
-                    toks = self.g_tokens(nums, strs, mode, k, allow_err, hist)
-                    while len(render(toks)) > 250:      # a BASIC string holds at most 255 bytes
+                    toks = self.g_tokens(ctx, strs, mode, k, allow_err, hist)
+                    while len(render(toks, {})) > 250:      # a BASIC string holds at most 255 bytes
                         toks.pop()
-                    if rng.random() < 0.22:
-                        draws.append({'raw': self.g_mutate(render(toks))}); hist['raw_strings'] += 1
+                    has_ptr = 'ptr' in repr(toks) or "'Xp'" in repr(toks)
+                    if rng.random() < 0.22 and not has_ptr:
+                        draws.append({'raw': self.g_mutate(render(toks, {}))}); hist['raw_strings'] += 1
                     else:
                         draws.append({'c': toks}); hist['structured_strings'] += 1
                 groups.append({'pre': self.g_pre(mode) if mode else [], 'draws': draws})
@@ -508,6 +734,8 @@ class C33(core.Check):
 
     def describe(self, case):
         d = dict(case)
+        if case.get('k') == 'fl':
+            return d
         try:
             d['text'] = [[text_of(s) for s in g['draws']] for g in case['groups']]
             d['var_text'] = dict((v[0], text_of(v[2])) for v in case['vars'] if v[1] == '$')
@@ -556,51 +784,115 @@ class C33(core.Check):
                 'scale': g._draw_scale if g._draw_scale is not None else 4,
                 'angle': g._draw_angle if g._draw_angle is not None else 0,
                 'attr': g._last_attr if g._last_attr is not None else 0,
-                'text': bool(g._mode.is_text_mode), 'nattr': int(g._num_attr)}
+                'text': bool(g._mode.is_text_mode), 'nattr': int(g._num_attr),
+                'aspect': [int(g._mode.pixel_height * g._screen_aspect[0]),
+                           int(g._mode.pixel_width * g._screen_aspect[1])] if not g._mode.is_text_mode else [1, 1]}
 
     def _set_vars(self, s, case):
-        for name, kind, val in case['vars']:
+        """Create every variable (strings empty), read the VARPTR$ bytes of the scalars, then fill in the
+        strings (their text may contain those bytes).  Returns (ptrs, texts of the string values)."""
+        scal = [v for v in case['vars'] if v[1] != 'a']
+        for name, kind, val in scal:
             if kind == '$':
-                s.set_variable(name, text_of(val).encode('latin-1'))
+                s.set_variable(name, b'')
             elif kind == '%':
                 s.set_variable(name, int(val))
             else:
                 s.set_variable(name if name[-1] in '!#' else name + '!', float(val))
+        s.set_variable(RESERVED, b'')
+        s.set_variable(SCRATCH, b'')
+        ptrs = {}
+        for name, kind, val in scal:
+            full = name if name[-1] in '%!#$' else name + '!'
+            p = s.evaluate('VARPTR$(%s)' % full)
+            p = p.decode('latin-1') if isinstance(p, bytes) else str(p)
+            for k in keys_of(name):
+                ptrs[k] = p
+        for name, kind, val in case['vars']:
+            if kind == 'a':
+                s.execute('DIM %s(%s)' % (name, ','.join(str(d) for d in val['dims'])))
+        texts = {}
+        for name, kind, val in case['vars']:
+            if kind == '$':
+                texts[name.upper()] = text_of(val, ptrs)
+                s.set_variable(name, texts[name.upper()].encode('latin-1'))
+            elif kind == 'a':
+                for idx, v in val['cells']:
+                    elt = '%s(%s)' % (name, ','.join(str(i) for i in idx))
+                    if name.endswith('$'):
+                        t = text_of(v, ptrs)
+                        texts[name.upper() + repr(tuple(idx))] = t
+                        s.set_variable(SCRATCH, t.encode('latin-1'))
+                        s.execute('%s=%s' % (elt, SCRATCH))
+                    else:
+                        s.execute('%s=%d' % (elt, int(v)))
+        return ptrs, texts
 
     def _run(self, case):
-        """Run the case on the implementation. Returns dict(out, starts, pixels, stmts)."""
-        with core.time_limit(60):
+        """Run the case on the implementation. Returns dict(out, starts, pixels, stmts, ...)."""
+        from pcbasic.basic.base import error as pcerror
+        with core.time_limit(120):
             s = self._session(case['mode'])
             g = s._impl.display.graphics
             calls = []
-            orig_line, orig_step = g._draw_line, g._draw_step
+            outcomes = []
+            caught = []
+            orig_line, orig_step, orig_fill, orig_draw = g._draw_line, g._draw_step, g._flood_fill, g._draw
 
             def rec_line(x0, y0, x1, y1, attr, pattern=0xffff):
-                calls.append((x0, y0, x1, y1, attr))
+                calls.append((0, x0, y0, x1, y1, attr))
                 return orig_line(x0, y0, x1, y1, attr, pattern)
 
             def rec_step(x0, y0, sx, sy, plot, goback):
-                if g._draw_angle not in (0, 180, 360):
+                if g._draw_angle not in RIGHT_ANGLES:
                     raise ExcludedByModel()
                 return orig_step(x0, y0, sx, sy, plot, goback)
-            out, starts, stmts = [], [], []
+
+            def rec_fill(lcoord, fill_attr, pattern, border_attr, bg_pattern):
+                if g._window_bounds is not None:
+                    raise ExcludedByModel()
+                x, y = g._get_window_physical(*lcoord)      # raises Overflow exactly where the real call does
+                bx0, by0, bx1, by1 = g.graph_view.get_bounds()
+                if x < bx0 or x > bx1 or y < by0 or y > by1:
+                    o = 0
+                elif g.graph_view[y, x] == border_attr:
+                    o = 1
+                else:
+                    o = 2
+                outcomes.append(o)
+                calls.append((1, x, y, fill_attr, border_attr, 0))
+                return orig_fill(lcoord, fill_attr, pattern, border_attr, bg_pattern)
+
+            def rec_draw(gml, depth=0):
+                try:
+                    return orig_draw(gml, depth) if depth else orig_draw(gml)
+                except pcerror.BASICError as e:
+                    if not depth:
+                        caught.append(e.err)
+                    raise
+            out, starts, stmts, group_outcomes, texts = [], [], [], [], []
             stop = False
             try:
-                g._draw_line, g._draw_step = rec_line, rec_step
-                self._set_vars(s, case)
+                g._draw_line, g._draw_step, g._flood_fill, g._draw = rec_line, rec_step, rec_fill, rec_draw
+                ptrs, var_texts = self._set_vars(s, case)
                 for grp in case['groups']:
                     if stop:
                         break
                     for st in grp['pre']:
                         s.execute(st)
                     starts.append(self._gstate(g))
+                    del outcomes[:]
+                    gtexts = []
                     for src in grp['draws']:
                         del calls[:]
+                        del caught[:]
                         s._impl.interpreter.error_num = 0
-                        s.set_variable(RESERVED, text_of(src).encode('latin-1'))
+                        text = text_of(src, ptrs)
+                        gtexts.append(text)
+                        s.set_variable(RESERVED, text.encode('latin-1'))
                         try:
                             s.execute('DRAW ' + RESERVED)
-                            err = s._impl.interpreter.error_num
+                            err = caught[0] if caught else s._impl.interpreter.error_num
                             status = [1, err] if err else [0, 0]
                         except ExcludedByModel:
                             status = [9, 9]
@@ -627,17 +919,21 @@ class C33(core.Check):
                         for c in calls:
                             rec += [int(x) for x in c]
                         out += rec
-                        stmts.append({'status': status, 'pen': pen, 'gs': gs, 'segs': [tuple(int(x) for x in c) for c in calls]})
+                        stmts.append({'status': status, 'pen': pen, 'gs': gs,
+                                      'reqs': [tuple(int(x) for x in c) for c in calls]})
                         if stop:
                             break
+                    group_outcomes.append(list(outcomes))
+                    texts.append(gtexts)
                 pixels = None
                 if case['mode'] and not stop:
                     pixels = self._pixels(s)
             finally:
-                g._draw_line, g._draw_step = orig_line, orig_step
+                g._draw_line, g._draw_step, g._flood_fill, g._draw = orig_line, orig_step, orig_fill, orig_draw
             if stop:
                 self._drop_session()
-        return {'out': out, 'starts': starts, 'pixels': pixels, 'stmts': stmts, 'stopped': stop}
+        return {'out': out, 'starts': starts, 'pixels': pixels, 'stmts': stmts, 'stopped': stop,
+                'outcomes': group_outcomes, 'texts': texts, 'ptrs': ptrs, 'var_texts': var_texts}
 
     @staticmethod
     def _pixels(s):
@@ -653,8 +949,21 @@ class C33(core.Check):
             cache[key] = self._run(case)
         return cache[key]
 
+    @staticmethod
+    def _float_ops(case):
+        a0, a1, v = case['a0'], case['a1'], case['v']
+        yf = float(a1) / float(a0)
+        num, den = yf.as_integer_ratio()
+        e = -(den.bit_length() - 1)
+        while num and num % 2 == 0:
+            num //= 2
+            e += 1
+        return [num, e if num else 0, int(v * yf), int(v // yf)]
+
     def impl(self, case):
         case = self.undescribe(case)
+        if case.get('k') == 'fl':
+            return self._float_ops(case)
         self.__dict__.setdefault('_runs', {}).pop(core.sha(case), None)
         return self._cached(case)['out']
 
@@ -663,65 +972,87 @@ class C33(core.Check):
 
     def model_term(self, case):
         case = self.undescribe(case)
+        if case.get('k') == 'fl':
+            return '(enc_float %s %s %s)' % (zint(case['a0']), zint(case['a1']), zint(case['v']))
         run = self._cached(case)
-        env = []
         tab = {}
         for name, kind, val in case['vars']:
-            key = var_key(name)
-            term = '(VStr %s)' % zbytes(text_of(val)) if kind == '$' else '(VNum %s)' % zint(int(val))
-            keys = [key]
-            if key.endswith('!'):
-                keys.append(key[:-1])
-            elif key[-1] not in '#!%$':
-                keys.append(key + '!')
-            for k in keys:
-                tab[k] = term
-        for k in sorted(tab):
-            env.append('(%s, %s)' % (zbytes(k), tab[k]))
+            if kind == 'a':
+                cells = []
+                for idx, v in val['cells']:
+                    if name.endswith('$'):
+                        t = '(VStr %s)' % zbytes(run['var_texts'][name.upper() + repr(tuple(idx))])
+                    else:
+                        t = '(VNum %s)' % zint(int(v))
+                    cells.append('(%s, %s)' % (core.zl(idx), t))
+                term = '(VArr %s [%s])' % (core.zl(val['dims']), '; '.join(cells))
+                for k in keys_of(name):
+                    tab[zbytes(k + '(')] = term
+            else:
+                term = '(VStr %s)' % zbytes(run['var_texts'][name.upper()]) if kind == '$' else '(VNum %s)' % zint(int(val))
+                for k in keys_of(name):
+                    tab[zbytes(k)] = term
+                p = run['ptrs'].get(name.upper())
+                if p:
+                    tab[core.zl([0] + [ord(ch) for ch in p])] = term
+        env = ['(%s, %s)' % (k, tab[k]) for k in sorted(tab)]
         parts = []
-        for grp, g0 in zip(case['groups'], run['starts']):
-            strs = '[' + '; '.join(zbytes(text_of(src)) for src in grp['draws']) + ']'
-            parts.append('(%s, %s)' % (coq_gstate(g0), strs))
+        for g0, gtexts, outs in zip(run['starts'], run['texts'], run['outcomes']):
+            strs = '[' + '; '.join(zbytes(t) for t in gtexts) + ']'
+            parts.append('(%s, %s)' % (coq_gstate(g0, outs), strs))
         if not parts:
             return '(@nil Z)'
         # a statement that ends Excluded stops the whole case (the adapter stops there too)
-        return '(draw_groups %d [%s] [%s])' % (DEPTH, '; '.join(env), '; '.join(parts))
+        return '(draw_groups draw_max_depth [%s] [%s])' % ('; '.join(env), '; '.join(parts))
 
     # ---------------------------------------------------------------------------------------------
     # oracle
 
     def nontrivial(self, case, out):
-        run = self._cached(self.undescribe(case))
-        return any(st['status'] == [0, 0] and (st['segs'] or st['pen'] != [0, 0]) for st in run['stmts'])
+        case = self.undescribe(case)
+        if case.get('k') == 'fl':
+            return True
+        run = self._cached(case)
+        return any(st['status'] == [0, 0] and (st['reqs'] or st['pen'] != [0, 0]) for st in run['stmts'])
+
+    def count(self, key):
+        if self.histogram is not None:
+            self.histogram[key] = self.histogram.get(key, 0) + 1
 
     def oracle(self, case, out):
         case = self.undescribe(case)
+        if case.get('k') == 'fl':
+            # exact rational reading of the two double operations
+            a0, a1, v = case['a0'], case['a1'], case['v']
+            yf = float(a1) / float(a0)
+            if Fraction(yf) != Fraction(float(Fraction(a1, a0))):
+                return 'host division is not the correctly rounded quotient'
+            exp = [int(float(Fraction(v) * Fraction(yf))), math.floor(Fraction(v) / Fraction(yf))]
+            return None if out[2:] == exp else 'host double operations %r differ from exact arithmetic %r' % (out[2:], exp)
         run = self._cached(case)
         if run['out'] != out:
             run = self._run(case)
-        tab = var_table(case)
-        expected_lines = []       # LINE statements of the reference, per group
+        tabs = var_tables(case)
+        expected = []             # requests of the reference, per group
         comparable = bool(case['mode'])
         k = 0
         for gi, grp in enumerate(case['groups']):
             if gi >= len(run['starts']):
                 break
             g0 = run['starts'][gi]
-            pen0 = g0['cur'] if g0['cur'] is not None else g0['last']
-            ref = Ref(tab, pen0, g0['scale'], g0['angle'], g0['attr'], g0['nattr'])
+            ref = Ref(tabs, g0, run['outcomes'][gi] if gi < len(run['outcomes']) else [])
             known = True
-            lines = []
-            for src in grp['draws']:
+            reqs = []
+            for di, src in enumerate(grp['draws']):
                 if k >= len(run['stmts']):
                     break
                 st = run['stmts'][k]
                 k += 1
+                text = run['texts'][gi][di] if gi < len(run['texts']) and di < len(run['texts'][gi]) else text_of(src)
                 if st['status'][0] == 2:
-                    return 'host exception class %d escaped from DRAW %r' % (st['status'][1], text_of(src))
+                    return 'host exception class %d escaped from DRAW %r' % (st['status'][1], text)
                 if st['status'] == [9, 9]:
                     return None
-                # POINT(0) / POINT(1) report the pen (checked inside the adapter: -777777 marks a deviation)
-                n = len(st['segs'])
                 if g0['text']:
                     if st['status'] != [1, 5]:
                         return 'DRAW in text mode did not raise Illegal function call'
@@ -731,7 +1062,7 @@ class C33(core.Check):
                 if not known:
                     comparable = False
                     continue
-                ref.segs = []
+                ref.reqs = []
                 try:
                     ref.run(src['c'])
                     exp_status = [0, 0]
@@ -741,13 +1072,13 @@ class C33(core.Check):
                     known = False
                     comparable = False
                     continue
-                what = 'DRAW %r (group %d)' % (text_of(src), gi)
+                what = 'DRAW %r (group %d)' % (text, gi)
                 if st['status'] != exp_status:
                     return '%s: status %r, reference %r' % (what, st['status'], exp_status)
                 if tuple(st['pen']) != tuple(ref.pen):
                     return '%s: pen ends at %r, reference %r' % (what, st['pen'], list(ref.pen))
-                if st['segs'] != ref.segs:
-                    return '%s: segments drawn %r, reference %r' % (what, st['segs'][:6], ref.segs[:6])
+                if st['reqs'] != ref.reqs:
+                    return '%s: requests %r, reference %r' % (what, st['reqs'][:6], ref.reqs[:6])
                 if (st['gs']['scale'], st['gs']['attr'], st['gs']['angle']) != (ref.scale, ref.attr, ref.angle):
                     return '%s: scale/colour/angle %r, reference %r' % (
                         what, (st['gs']['scale'], st['gs']['attr'], st['gs']['angle']), (ref.scale, ref.attr, ref.angle))
@@ -755,46 +1086,46 @@ class C33(core.Check):
                     return '%s: last point %r is not the pen %r' % (what, st['gs']['last'], list(ref.pen))
                 if g0['window'] and st['gs']['last'] != g0['last']:
                     return '%s: last point moved although WINDOW is active' % what
-                lines += ref.segs
-                if self.histogram is not None:
-                    self.histogram['oracle_statements_checked_against_reference'] = \
-                        self.histogram.get('oracle_statements_checked_against_reference', 0) + 1
-            expected_lines.append(lines)
+                reqs += ref.reqs
+                self.count('oracle_statements_checked_against_reference')
+            expected.append(reqs)
         # POINT deviation markers
         pos = 0
         for st in run['stmts']:
-            nseg = len(st['segs'])
-            rec = out[pos:pos + 14 + 5 * nseg]
-            pos += 14 + 5 * nseg
+            nreq = len(st['reqs'])
+            rec = out[pos:pos + 14 + 6 * nreq]
+            pos += 14 + 6 * nreq
             if len(rec) >= 13 and (rec[11] == -777777 or rec[12] == -777777):
                 return 'POINT(0)/POINT(1) do not report the pen position %r' % (st['pen'],)
-        # pixels: the same picture as LINE statements between the reference endpoints
+        # pixels: the same picture as LINE / PAINT statements for the reference requests
         if comparable and run['pixels'] is not None and not run['stopped'] and \
                 all(st['status'] == [0, 0] for st in run['stmts']):     # (an error message is pixels too)
             nattr = MODES[case['mode']][2]
-            ok = all(-32768 <= v <= 32767 for ls in expected_lines for l in ls for v in l[:4]) and \
-                all(0 <= l[4] < nattr for ls in expected_lines for l in ls)
+            ok = all(-32768 <= v <= 32767 for rs in expected for r in rs for v in r[1:5 if r[0] == 0 else 3]) and \
+                all(0 <= a < nattr for rs in expected for r in rs for a in ([r[5]] if r[0] == 0 else [r[3], r[4]]))
             if ok and not any(g['window'] for g in run['starts']) and \
                     not any(p.startswith('WINDOW') for g in case['groups'] for p in g['pre']):
-                ref_pixels = self._line_pixels(case, expected_lines)
-                if ref_pixels is not None and self.histogram is not None:
-                    self.histogram['oracle_pixel_buffers_compared_with_LINE'] = \
-                        self.histogram.get('oracle_pixel_buffers_compared_with_LINE', 0) + 1
+                ref_pixels = self._ref_pixels(case, expected)
+                if ref_pixels is not None:
+                    self.count('oracle_pixel_buffers_compared_with_LINE_PAINT')
                 if ref_pixels is not None and ref_pixels != run['pixels']:
                     diff = sum(1 for a, b in zip(ref_pixels, run['pixels']) if a != b)
-                    return 'pixels differ from the LINE statements between the same endpoints (%d pixels)' % diff
+                    return 'pixels differ from the LINE/PAINT statements for the same requests (%d pixels)' % diff
         return None
 
-    def _line_pixels(self, case, expected_lines):
-        with core.time_limit(60):
+    def _ref_pixels(self, case, expected):
+        with core.time_limit(120):
             s = self._session(case['mode'])
             try:
-                for grp, lines in zip(case['groups'], expected_lines):
+                for grp, reqs in zip(case['groups'], expected):
                     for st in grp['pre']:
                         s.execute(st)
-                    for (x0, y0, x1, y1, attr) in lines:
+                    for r in reqs:
                         s._impl.interpreter.error_num = 0
-                        s.execute('LINE (%d,%d)-(%d,%d),%d' % (x0, y0, x1, y1, attr))
+                        if r[0] == 0:
+                            s.execute('LINE (%d,%d)-(%d,%d),%d' % (r[1], r[2], r[3], r[4], r[5]))
+                        else:
+                            s.execute('PAINT (%d,%d),%d,%d' % (r[1], r[2], r[3], r[4]))
                         if s._impl.interpreter.error_num:
                             return None
                 return self._pixels(s)
@@ -804,6 +1135,8 @@ class C33(core.Check):
 
     def shrink_candidates(self, case):
         case = self.undescribe(case)
+        if case.get('k') == 'fl':
+            return
         # drop groups, draws, tokens, variables
         gs = case['groups']
         for i in range(len(gs)):
